@@ -40,7 +40,7 @@ if HAVE_CH and not os.environ.get("VERIF_REPLAY"):
     from crosshair.util import IgnoreAttempt
     from crosshair.libimpl.builtinslib import (SymbolicBytes, SymbolicInt, SymbolicBool,
                                                LazyIntSymbolicStr, AnySymbolicStr)
-    from vlib import chmodels
+    from vlib import chmodels, state
     chmodels.install()
     SYMBOLIC = True
 else:
@@ -98,6 +98,7 @@ def _newpath():
             _cur["n"] = 0
             _BYTES_OF.clear()
             chmodels.BYTES.clear()
+            state.restore()
             _STATS["paths"] += 1
 
 
@@ -232,6 +233,8 @@ def mkbytes(*parts):
                 elems.extend(p)
             else:
                 elems.append(p)
+        if all(type(e) is int for e in elems):
+            return bytes(elems)          # fully concrete: a real bytes object
         return SymbolicBytes(elems)
 
 
@@ -616,3 +619,60 @@ def is_sym(v):
     with NoTracing():
         from crosshair.core import CrossHairValue
         return isinstance(v, CrossHairValue)
+
+
+def mkstr(cps):
+    """str from a list of code points (ints / symbolic ints)"""
+    if not SYMBOLIC:
+        return "".join(chr(c) for c in cps)
+    with NoTracing():
+        if not any(isinstance(c, SymbolicInt) for c in cps):
+            return "".join(chr(int(c)) for c in cps)
+        return LazyIntSymbolicStr(list(cps))
+
+
+def hexdigit_cp(d, upper=True):
+    """code point of hex digit d (0..15), branch-free"""
+    if not SYMBOLIC:
+        return ord(("0123456789ABCDEF" if upper else "0123456789abcdef")[d])
+    with NoTracing():
+        if isinstance(d, SymbolicInt):
+            return SymbolicInt(z3.If(d.var < 10, 48 + d.var, (55 if upper else 87) + d.var))
+    return ord(("0123456789ABCDEF" if upper else "0123456789abcdef")[d])
+
+
+def bytes_eq(a, b):
+    """equality of two byte sequences of concrete lengths as ONE boolean"""
+    if not SYMBOLIC:
+        return bytes(a) == bytes(b)
+    la, lb = list(a), list(b)
+    if len(la) != len(lb):
+        return False
+    return sym_all([x == y for x, y in zip(la, lb)])
+
+
+# ------------------------------------------------------------------- hang detection
+class HangDetected(Exception):
+    pass
+
+
+class deadline:
+    """with deadline(seconds): ...   raises HangDetected inside the block when it runs longer.
+    (interval timer + signal handler: works in tight pure-Python loops, symbolic and replay mode)"""
+    def __init__(self, seconds):
+        self.seconds = seconds
+
+    def __enter__(self):
+        import signal
+
+        def _h(signum, frame):
+            raise HangDetected("no progress for %ss" % self.seconds)
+        self._old = signal.signal(signal.SIGALRM, _h)
+        signal.setitimer(signal.ITIMER_REAL, self.seconds)
+        return self
+
+    def __exit__(self, *a):
+        import signal
+        signal.setitimer(signal.ITIMER_REAL, 0)
+        signal.signal(signal.SIGALRM, self._old)
+        return False
